@@ -264,8 +264,43 @@ theorem dOptBool_pOptBool (o : Option Bool) : dOptBool (pOptBool o) = o := by
   | none => simp [pOptBool, dOptBool, lastVarint, allVarint]
   | some b => cases b <;> simp [pOptBool, dOptBool, lastVarint, allVarint]
 
-theorem dEnum_pEnum (n : Nat) : dEnum (pEnum (some n)) = some n := by
+theorem dEnum_pEnum (n : Nat) (h : inEnum n = true) : dEnum (pEnum (some n)) = some n := by
+  simp only [inEnum, decide_eq_true_eq] at h
   simp only [pEnum]; split <;> simp [dEnum, lastVarint, allVarint, *]
+  omega
+
+theorem lastField_append (ks : List Nat) (a b : List Rec) :
+    lastField ks (a ++ b) = (match lastField ks b with
+                             | some k => some k
+                             | none => lastField ks a) := by
+  simp only [lastField, List.filter_append]
+  cases hb : List.filter (fun r => ks.contains r.fno) b with
+  | nil => simp
+  | cons x xs =>
+    have : ∃ y, (x :: xs).getLast? = some y := by
+      cases hl : (x :: xs).getLast? with
+      | none => simp at hl
+      | some y => exact ⟨y, rfl⟩
+    obtain ⟨y, hy⟩ := this
+    simp [List.getLast?_append, hb, hy]
+
+theorem lastField_fld_notin (ks : List Nat) (j : Nat) (ps : List Payload) (h : ks.contains j = false) :
+    lastField ks (fld j ps) = none := by
+  have h' : j ∉ ks := by simpa using h
+  have : List.filter (fun r => ks.contains r.fno) (fld j ps) = [] := by
+    simp only [fld, List.filter_eq_nil_iff, List.mem_map]
+    rintro r ⟨p, _, rfl⟩
+    simp [h']
+  rw [lastField, this]
+  rfl
+
+theorem lastField_fld_nil (ks : List Nat) (j : Nat) : lastField ks (fld j []) = none := by
+  simp [lastField, fld]
+
+theorem lastField_fld_one (ks : List Nat) (j : Nat) (p : Payload) (h : ks.contains j = true) :
+    lastField ks (fld j [p]) = some j := by
+  have h' : j ∈ ks := by simpa using h
+  simp [lastField, fld, h']
 
 theorem dFixed64_pFixed64 (i : Int) (h : inU64 i = true) : dFixed64 (pFixed64 i) = i := by
   simp only [inU64, Bool.and_eq_true, decide_eq_true_eq] at h
